@@ -17,6 +17,38 @@ import (
 	"berty.tech/go-ipfs-log/iface"
 )
 
+// what a reader was handed is a snapshot: entries, values and heads read before an append began do not
+// change when the append happens (sequential half of "readers see a consistent state")
+func c13ViewsAreSnapshots(t *c13Tally) {
+	ctx := context.Background()
+	w := newWorld()
+	l, err := ipfslog.NewLog(w.api, w.idents["A"], &ipfslog.LogOptions{ID: "V"})
+	if err != nil {
+		panic(err)
+	}
+	for k := 0; k < 3; k++ {
+		if _, err := l.Append(ctx, []byte(fmt.Sprintf("v%d", k)), nil); err != nil {
+			panic(err)
+		}
+	}
+	c := map[string]interface{}{"scenario": "views read before an append, looked at after it"}
+	announce(c)
+	ents, vals, heads, raw := l.GetEntries(), l.Values(), l.Heads(), l.RawHeads()
+	before := [4]int{ents.Len(), vals.Len(), heads.Len(), raw.Len()}
+	headBefore := hashesOf(heads.Slice())
+	for k := 0; k < 2; k++ {
+		if _, err := l.Append(ctx, []byte(fmt.Sprintf("later%d", k)), nil); err != nil {
+			panic(err)
+		}
+	}
+	t.res.Evaluations++
+	after := [4]int{ents.Len(), vals.Len(), heads.Len(), raw.Len()}
+	if before != after || !eqStrings(headBefore, hashesOf(heads.Slice())) {
+		t.addFailure(monitorFailure{Property: t.prop, Monitor: "read-snapshot", Key: t.prop + ":read:view-not-a-snapshot", Case: c,
+			Detail: fmt.Sprintf("GetEntries/Values/Heads/RawHeads read before two appends had %v elements, afterwards the SAME values have %v", before, after)})
+	}
+}
+
 func c13ErrorPaths(t *c13Tally) {
 	ctx := context.Background()
 	type probe struct {
